@@ -167,8 +167,53 @@ def make_game(code: str, cfg: dict[str, Any]) -> Any:
 
 
 def make_state(code: str, cfg: dict[str, Any]) -> State:
-    game = make_game(code, cfg)
-    return game(cfg['stacks'], cfg['n'])
+    """Create a state through the variant's PUBLIC ``create_state`` classmethod (parameter names read
+    from its current signature); only harnesses that override hand types / streets / deck go through the
+    game object instead."""
+    if any(k in cfg for k in ('hand_types', 'streets', 'deck')):
+        game = make_game(code, cfg)
+        return game(cfg['stacks'], cfg['n'])
+    cls = VARIANTS[CODES.get(code, code)]
+    sig = inspect.signature(cls.create_state)
+    args: list = []
+    kwargs: dict[str, Any] = {}
+    for name, p in sig.parameters.items():
+        if name == 'automations':
+            v = cfg.get('automations', ALL_AUTOMATIONS)
+        elif name == 'ante_trimming_status':
+            v = cfg.get('ante_trimming_status', True)
+        elif name == 'raw_antes':
+            v = cfg.get('antes', 0)
+        elif name == 'raw_blinds_or_straddles':
+            v = cfg['blinds']
+        elif name == 'bring_in':
+            v = cfg['bring_in']
+        elif name == 'min_bet':
+            v = cfg['min_bet']
+        elif name == 'small_bet':
+            v = cfg['small_bet']
+        elif name == 'big_bet':
+            v = cfg['big_bet']
+        elif name == 'raw_starting_stacks':
+            v = cfg['stacks']
+        elif name == 'player_count':
+            v = cfg['n']
+        elif name == 'mode':
+            kwargs[name] = cfg.get('mode', Mode.TOURNAMENT)
+            continue
+        elif name == 'starting_board_count':
+            kwargs[name] = cfg.get('starting_board_count', 1)
+            continue
+        elif name in ('divmod', 'rake'):
+            if name in cfg:
+                kwargs[name] = cfg[name]
+            continue
+        elif p.default is inspect.Parameter.empty:
+            raise KeyError(f'unknown create_state parameter {name} of {cls.__name__}')
+        else:
+            continue
+        args.append(v)
+    return cls.create_state(*args, **kwargs)
 
 
 def is_stud(code: str) -> bool:
